@@ -80,8 +80,14 @@ def check_phenotype(prog, rep):
     # loop headers
     oi = _strip(dump(outer.iter))
     if not (isinstance(outer.target, ast.Tuple) and len(outer.target.elts) == 2 and oi in ("zip(range(self.nenv),self.nrep)", "zip(range(self._nenv),self._nrep)", "enumerate(self.nrep)")):
-        rep.violate(R, construct, "environment loop is `for %s in %s`, not over (environment, its replicate count) = zip(range(self.nenv), self.nrep)" % (dump(outer.target), dump(outer.iter)),
-                    where(f, outer), "zip(range(self.nenv), self.nrep)", dump(outer.iter))
+        # classified: the pair loop is there but pairs environments with something else than their replicate counts; anything else is another formulation
+        if oi.startswith("zip(range(self.nenv),") or oi.startswith("zip(range(self._nenv),"):
+            rep.violate(R, construct, "environment loop is `for %s in %s`, not over (environment, its replicate count) = zip(range(self.nenv), self.nrep)" % (dump(outer.target), dump(outer.iter)),
+                        where(f, outer), "zip(range(self.nenv), self.nrep)", dump(outer.iter))
+        elif oi in ("range(self.nenv)", "range(self._nenv)") and not any("nrep" in dump(n) for n in ast.walk(outer)):
+            rep.violate(R, construct, "environments are looped over without their replicate counts (self.nrep is never consulted)", where(f, outer), "zip(range(self.nenv), self.nrep)", dump(outer.iter))
+        else:
+            rep.unrec(R, construct, "environment loop `for %s in %s` is another formulation of (environment, replicate count)" % (dump(outer.target), dump(outer.iter)[:50]))
         return
     env, env_nrep = [dump(e) for e in outer.target.elts]
     if not (isinstance(inner.target, ast.Name) and _strip(dump(inner.iter)) == "range(%s)" % env_nrep):
